@@ -68,6 +68,10 @@ RULE = ("exhaustive histories over small universes (mk: 3 keys x 2 values, tuple
         "decorator with and without keep_name, keys of mixed kinds and keys equal across types (1 / 1.0 / True); the "
         "iteration ORDER of the three dicts is compared with the model's association lists, list(d) / d.values() / d.keys() "
         "must enumerate alike, iter(sd) in the order of sd.values(), sd.__doc__ must not raise, report len(sd) and name every name; "
+        "the __doc__ CONTENT (one heading per strategy under its oldest name, '(Default)' on the default strategy only, aliases "
+        "in key-tuple order); for sd histories the final sd[k] is compared with `sdLastAssigned` read off the history alone; "
+        "entry sdn (outside the property, as coded): exhaustive depth <= 3 histories over 10 operations using the NAME 'default' "
+        "(sd['default'] = f, del sd['default'], del sd.default) against the as-coded model, model only; "
         "a case is non-trivial when at least one assignment succeeded and "
         "the final dict is non-empty or an exception was observed; distinct = distinct JSON history")
 TRUSTED = [
@@ -99,11 +103,22 @@ ASSUMPTIONS = [
     "their __eq__ (two equal values with different hashes end up in two groups: Python's own dict contract is broken "
     "first); cross-type equal VALUES and KEYS form ONE class and the property fixes d[k] / the tuple items only up to == : "
     "which of the equal objects is handed back is not fixed and not compared.  A key that is itself a tuple (only reachable "
-    "as an item of a key tuple, `d[((1, 2), 3)] = v`) is outside: `d[(1, 2)]` then looks at the storage, not at the key",
+    "as an item of a key tuple, `d[((1, 2), 3)] = v`) is outside: `d[(1, 2)]` then looks at the storage, not at the key; "
+    "observed as is (histogram `outside_the_property_observed_as_is`): d['c'] = 1; d[(('c',),)] = 5; del d[('c',)] succeeds and "
+    "leaves the three maps incoherent (value 1 in the storage, not in _inv_dict), and d[(('c',),)] = 5; d['b'] = 5 raises KeyError. "
+    "DECISION: a restriction of the key type ('single key or key tuple': a tuple is always a key TUPLE), not a finding",
     "key tuples are non-empty (the empty tuple is exercised separately, see known findings)",
     "StrategyDict names are strings different from 'default' and from every attribute/method of the class (a name "
     "attribute shadows the method: after sd['items'] = f, sd.__doc__ raises; sd['_keys_dict'] = f breaks the dict; "
-    "sd['default'] = f; del sd['default'] raises AttributeError after removing the item); "
+    "sd['default'] = f; del sd['default'] raises AttributeError after removing the item).  DECISION: 'exposes every name as an "
+    "attribute equal to the item' HOLDS for such names (getattr(sd, name) is the strategy) — what breaks is the class's own "
+    "machinery that the instance attribute shadows; a documented restriction (strategy(): names are 'used both as key items and "
+    "as attribute names'), recorded in the histogram `outside_the_property_observed_as_is`.  The name 'default' is modelled AS "
+    "CODED (sdSetDefaultName / sdDelDefaultName / sdDelattrDefaultName, theorems C15.44-46, entry sdn of the tie): the strategy "
+    "becomes THE default whatever was stored first, and deleting the name raises AttributeError after everything was removed; "
+    "the decorator renames the strategy (func.__name__ = names[0]) BEFORE the assignment, so a refused sd.strategy('a', 3)(g) "
+    "leaves g renamed: a side effect on the strategy object, not on the dict — recorded in the same histogram, outside the "
+    "property (swapping the two statements would make a bound method, whose __name__ cannot be set, fail AFTER it was stored); "
     "stored strategies are never the class-level default lambda; an assignment naming a non-string is expected to be "
     "refused as a whole (the code raises TypeError today, see known findings)",
     "an operation that raises (missing key, unhashable key / value, a value's own __hash__ or __eq__ raising) must leave "
@@ -133,7 +148,12 @@ MANIFEST = {
              "the specification's items, list(d) / d.values() / d.keys() enumerate in one order; the inherited `in` / get see "
              "complete key tuples; the constructor collapses its arguments as dict(...) and yields a coherent dict; the code "
              "before the repairs 9cbe718 / 735182a (half-way failing assignments) is kept as a regression model with theorems "
-             "saying what it destroyed.  Tied to /repo by exhaustive small-universe, random and long histories over value and key "
+             "saying what it destroyed; round 4: sd[k] = the last strategy assigned to the name k read off the history alone "
+             "(sdLastAssigned), deleting anything that is not a bound single key raises KeyError for EVERY key shape (tuples of any "
+             "length, non-strings) on both classes, a refused assignment anywhere in a call history with the offending item at any "
+             "position leaves every later result and the final state as if never issued, attribute = item and default = first "
+             "stored for call histories; the NAME 'default' as coded (outside the property: it overrides the default and its "
+             "deletion raises after removing).  Tied to /repo by exhaustive small-universe, random and long histories over value and key "
              "universes in which equality, identity and type differ, incl. iteration order of the three dicts."),
     "note": ("Trusted: Lean kernel (axioms propext, Classical.choice, Quot.sound), the Python correspondence harness; the "
              "model (Python dict = insertion-ordered association list, vars(self) = association list) is hand written "
